@@ -11,11 +11,11 @@ use serde_json::{json, Value};
 /// standards assign).
 pub fn fail_units(n: usize) -> Vec<Unit> {
     let all = vec![
-        unit("FOO", U::Fail(RefErr::std(-113))),                 // undefined header
-        unit("EVT 1,2", U::Fail(RefErr::std(-108))),             // parameter not allowed
-        unit("U8", U::Fail(RefErr::std(-109))),                  // missing parameter
+        unit("FOO", U::Fail(RefErr::lib(-113))),                 // undefined header
+        unit("EVT 1,2", U::Fail(RefErr::lib(-108))),             // parameter not allowed
+        unit("U8", U::Fail(RefErr::lib(-109))),                  // missing parameter
         unit("U8 \"x\"", U::Fail(RefErr::std(-104).any_of_class())),            // data type error
-        unit("U8 256", U::Fail(RefErr::std(-222))),              // data out of range
+        unit("U8 256", U::Fail(RefErr::lib(-222))),              // data out of range
         unit("RAISE -400", U::Fail(RefErr::std(-400))),          // handler-raised query error
         unit("EVT \"abc", U::Fail(RefErr::std(-151).any_of_class())),           // lexical: unterminated string
         unit("RAISEX", U::Fail(RefErr::std(-300).with_ext(b"ext"))), // device-specific with extended text
@@ -99,8 +99,8 @@ pub fn slices(tier: Tier) -> Vec<Slice> {
 /// Long histories: hundreds of unread items, counters crossing 256, interleaved reads.
 pub fn deep_alphabet() -> Vec<Act> {
     vec![
-        msg1("FOO", U::Fail(RefErr::std(-113))),                                // 0
-        msg1("U8 256", U::Fail(RefErr::std(-222))),                             // 1
+        msg1("FOO", U::Fail(RefErr::lib(-113))),                                // 0
+        msg1("U8 256", U::Fail(RefErr::lib(-222))),                             // 1
         msg1("RAISEX", U::Fail(RefErr::std(-300).with_ext(b"ext"))),            // 2
         msg1("SYST:ERR:COUN?", U::ErrCount),                                    // 3
         msg1("SYST:ERR?", U::ErrNext),                                          // 4
